@@ -177,7 +177,8 @@ def fx_params(lock_content=False):
     t = T()
     p = t["Params"](_nested(), lock=lock_content)
     p.lock_()
-    return ({"root": p}, {"root": p, "n": p["n"]}, [], {"locked_by": "params(lock=True).lock_" if lock_content else "params.lock_", "members": ["n"]})
+    return ({"root": p}, {"root": p, "n": p["n"]}, [], {"locked_by": "params(lock=True).lock_" if lock_content else "params.lock_", "members": ["n"],
+                                                         "content_stays_locked": bool(lock_content)})
 
 
 def fx_td_params():
@@ -919,7 +920,7 @@ def _judge(obs):
         # unlocking the root is the documented way out; structure must still be intact, and the whole tree is writable again
         if struct:
             out.append(("locked_frozen:structure", struct, dict(sig_base, effect="structure")))
-        if obs["outcome"] == "ok" and obs.get("still_locked"):
+        if obs["outcome"] == "ok" and obs.get("still_locked") and not meta.get("content_stays_locked"):   # (TensorDictParams(lock=True): documented)
             out.append(("unlock_root_frees:still-locked", obs["still_locked"], dict(sig_base, effect="still-locked")))
         return out
     if struct:
